@@ -39,6 +39,7 @@ Section ExprInd.
   Hypothesis HVarK : forall x k t, P (EVarK x k t).
   Hypothesis HSel : forall x f k t, P (ESel x f k t).
   Hypothesis HConst : forall x cv, P (EConst x cv).
+  Hypothesis HDeref : forall a, P a -> P (EDeref a).
   Fixpoint expr_ind' (e : expr) : P e :=
     match e with
     | EIdent x t => HId x t
@@ -57,6 +58,7 @@ Section ExprInd.
     | EVarK x k t => HVarK x k t
     | ESel x f k t => HSel x f k t
     | EConst x v => HConst x v
+    | EDeref a => HDeref a (expr_ind' a)
     end.
 End ExprInd.
 
@@ -122,6 +124,7 @@ Proof.
   - apply andb_true_iff in Hb as [H1 H4]. apply andb_true_iff in H1 as [H1 H3]. apply andb_true_iff in H1 as [H1 H2].
     apply String.eqb_eq in H1. apply String.eqb_eq in H2. apply vkind_eqb_eq in H3. apply ty_eqb_eq in H4. congruence.
   - apply andb_true_iff in Hb as [H1 H2]. apply String.eqb_eq in H1. apply value_eqb_eq in H2. congruence.
+  - f_equal; auto.
 Qed.
 
 (* ---------- evaluation of argument lists ---------- *)
@@ -287,6 +290,9 @@ Proof.
   - simpl in *. inversion Ht; inversion Hv; subst. apply Hen.
   - simpl in *. destruct (nilp en x); [discriminate|]. inversion Ht; inversion Hv; subst. apply Hen.
   - simpl in *. inversion Ht; inversion Hv; subst. reflexivity.
+  - simpl in Hv. destruct (evalS en e h) as [[[v1|] h1]|] eqn:E; simpl in Hv; try discriminate.
+    simpl in Ht. destruct (typeof e) as [[]|] eqn:T; try discriminate. inversion Ht; subst.
+    destruct v1 as [| | | | | | |n [l|]|m]; simpl in Hv; try discriminate; inversion Hv; subst; reflexivity.
 Qed.
 
 (* ---------- side-effect-free expressions: no events, result independent of the history ---------- *)
@@ -296,7 +302,7 @@ Definition pure_at (en : env) (e : expr) : Prop := exists r : option outcome, fo
 Fixpoint no_opaque (e : expr) : bool :=
   match e with
   | EIdent _ _ | ELit _ _ _ | EVarK _ _ _ | ESel _ _ _ _ | EConst _ _ => true
-  | EParen x | EUnary _ x | ESliceAll x => no_opaque x
+  | EParen x | EUnary _ x | ESliceAll x | EDeref x => no_opaque x
   | EBinary _ l r => no_opaque l && no_opaque r
   | EIndex a i => no_opaque a && no_opaque i
   | ECall (FPrim _) args => (fix go (l : list expr) : bool := match l with [] => true | x :: r => no_opaque x && go r end) args
@@ -389,6 +395,10 @@ Proof.
   - exists (if nilp en x then Some RPanic else Some (RVal (vars en (x ++ "." ++ f) t))); intros h; simpl.
     destruct (nilp en x); reflexivity.
   - eexists (Some _); intros h; reflexivity.
+  - simpl in S. destruct (IHe S) as [r Hr]. destruct r as [[v|]|].
+    + exists (deref_apply v). intros h. simpl. rewrite Hr. reflexivity.
+    + exists (Some RPanic). intros h. simpl. rewrite Hr. reflexivity.
+    + exists None. intros h. simpl. rewrite Hr. reflexivity.
 Qed.
 
 
